@@ -198,6 +198,9 @@ impl Stdfs {
     #[verifier::external_body]
     pub fn exists(p: PathBuf) -> (b: bool) ensures b == stdfs_has(p.comps()) { unimplemented!() }
 }
+// R1: Vec<PathBuf>::contains (PartialEq on paths is component-wise)
+#[verifier::external_body]
+pub fn vec_has_path(v: &Vec<PathBuf>, x: &PathBuf) -> (b: bool) ensures b == (exists|i: int| 0 <= i < v@.len() && (#[trigger] v@[i]).comps() == x.comps()) { unimplemented!() }
 // R3': `for x in vec` consumes the vector front to back
 #[verifier::external_body]
 pub fn vec_into_iter(v: Vec<PathBuf>) -> (r: DeIter<PathBuf>) ensures r.rest() == v@ { unimplemented!() }
@@ -211,6 +214,7 @@ impl Memfs {
 //@ item memfs_config_dir file=src/sys/fs/memfs/vfs.rs block="impl VirtualFileSystem for Memfs" fn=config_dir props=C18,C12
 //@ rw R2 1 ⟦crate::sys::user::config_dir()⟧ => ⟦config_dir()⟧
 //@ rw R2 1 ⟦crate::sys::user::sys_config_dirs()⟧ => ⟦sys_config_dirs()⟧
+//@ rw R1 * re⟦\b(\w+)\.contains\(&(\w+)\)⟧ => ⟦vec_has_path(&\1, &\2)⟧
 //@ rw R3 1 ⟦for config_dir in config_dirs {⟧ => ⟦for config_dir in vec_into_iter(config_dirs) {⟧
 //@ rw R1 * ⟦config_dir.mash(config.as_ref())⟧ => ⟦config_dir.mash_s(config.as_ref())⟧
 //@ rw R3 1 for
@@ -257,6 +261,7 @@ impl Stdfs {
 //@ item stdfs_config_dir file=src/sys/fs/stdfs/mod.rs block="impl Stdfs" fn=config_dir props=C18,C12
 //@ rw R2 1 ⟦crate::sys::user::config_dir()⟧ => ⟦config_dir()⟧
 //@ rw R2 1 ⟦crate::sys::user::sys_config_dirs()⟧ => ⟦sys_config_dirs()⟧
+//@ rw R1 * re⟦\b(\w+)\.contains\(&(\w+)\)⟧ => ⟦vec_has_path(&\1, &\2)⟧
 //@ rw R3 1 ⟦for config_dir in config_dirs {⟧ => ⟦for config_dir in vec_into_iter(config_dirs) {⟧
 //@ rw R1 * ⟦config_dir.mash(config.as_ref())⟧ => ⟦config_dir.mash_s(config.as_ref())⟧
 //@ rw R3 1 for
